@@ -371,3 +371,30 @@ Proof.
     + apply IH. intros v0 Hin. apply (Hfresh v0). now right.
   - destruct (Nat.eqb k k'); auto.
 Qed.
+
+(* RewriteRuleSet.apply_to_model as read: rejected by the analysis, and really history dependent -- after one
+   earlier application the same application computes different values (the generated names) *)
+Theorem ruleset_counter_refuted : rule_ok ruleset_as_read = false /\
+  exists (h : list (oracle * nat * trace)) orc fuel,
+    observable (run_match orc fuel (r_check ruleset_as_read) (r_rewrite ruleset_as_read) (run_history ruleset_as_read h ruleset_init) []) <>
+    observable (run_match orc fuel (r_check ruleset_as_read) (r_rewrite ruleset_as_read) ruleset_init []).
+Proof.
+  split; [vm_compute; reflexivity|].
+  exists [(counting_oracle, 40, [])], counting_oracle, 40. vm_compute. discriminate.
+Qed.
+
+(* with the counter re-initialised per model the analysis accepts it: every history gives the same result *)
+Theorem ruleset_counter_fixed : rule_ok ruleset_reset = true /\
+  forall (h : list (oracle * nat * trace)) (s0 : state) orc fuel tr,
+    observable (run_match orc fuel (r_check ruleset_reset) (r_rewrite ruleset_reset) (run_history ruleset_reset h s0) tr) =
+    observable (run_match orc fuel (r_check ruleset_reset) (r_rewrite ruleset_reset) s0 tr).
+Proof.
+  assert (H : rule_ok ruleset_reset = true) by (vm_compute; reflexivity).
+  split; [exact H|]. exact (history_independent ruleset_reset H).
+Qed.
+
+(* the witness is not degenerate: the application terminates normally and does generate names *)
+Example ruleset_witness_runs :
+  fst (fst (fst (run_match counting_oracle 40 (r_check ruleset_as_read) (r_rewrite ruleset_as_read) ruleset_init []))) = Returned false
+  /\ List.length (snd (fst (run_match counting_oracle 40 (r_check ruleset_as_read) (r_rewrite ruleset_as_read) ruleset_init []))) = 9.
+Proof. vm_compute. split; reflexivity. Qed.
